@@ -112,6 +112,9 @@ class Interp:
         self.call_sites = {}
         self.auto_opaque = set()
         self.closure_tsub = {}
+        # recursive passes over expression trees called from the code under analysis are kept opaque (switched off where
+        # the pass itself is what is analysed: the constant folder of C14)
+        self.walkers_opaque = True
         # opt-in: positions handed out by `enumerate` are the constants 0, 1, 2 ... (decides `if position > 0`)
         self.count_enumerate = False
         self.tsub = {}   # generic parameter name -> concrete type string, for the body being interpreted
@@ -815,7 +818,7 @@ class Interp:
             # compiler-derived trait impls (Clone, PartialEq, Debug ...) are kept as opaque calls
             local = False
         forced = local and self.force_inline is not None and self.force_inline(self, st, path, args)
-        if local and not forced and (path in self.auto_opaque or self.tree_walker(path)):
+        if local and not forced and (path in self.auto_opaque or (self.walkers_opaque and self.tree_walker(path))):
             # a recursive pass over an expression tree called from the code under analysis (collect names, substitute
             # symbols ...): its effect is not what is being summarised, and unrolling it explodes
             local = False
